@@ -85,7 +85,17 @@ def s_scale(curve, g, opt):
     if g == "G1":
         return st.one_of(st.none(), st.sampled_from([2, p - 1]), uniform_int(1, p - 1))
     nz = st.tuples(uniform_int(0, p - 1), uniform_int(0, p - 1)).filter(lambda t: t != (0, 0)).map(list)
-    return st.one_of(st.none(), st.sampled_from([[0, 1], [p - 1, 0], [1, 1]]), nz)
+    # z values in a relation with the twist: Fp-multiples of the twist constant xi (9 + u for BN254, 1 + u for
+    # BLS12-381), of its conjugate and of its inverse - after twisting, such a z has a vanishing coefficient in
+    # the Fp12 embedding (z0 - 9 z1 resp. z0 - z1) - and purely real / purely imaginary z
+    xi = (9, 1) if curve == "bn128" else (1, 1)
+    n_ = (xi[0] * xi[0] + xi[1] * xi[1]) % p
+    inv_xi = (xi[0] * pow(n_, -1, p) % p, -xi[1] * pow(n_, -1, p) % p)
+    rel = []
+    for base in (xi, (xi[0], p - xi[1]), inv_xi, (xi[1], xi[0]), (xi[0], 0), (0, xi[0])):
+        for k in (1, 5, p - 1, 31415926535897932384626433):
+            rel.append([base[0] * k % p, base[1] * k % p])
+    return st.one_of(st.none(), st.sampled_from([[0, 1], [p - 1, 0], [1, 1]]), nz, st.sampled_from(rel))
 
 
 def unscale(s):
